@@ -197,7 +197,8 @@ def build_all(prop: str, tier: str = "quick") -> dict:
                     res["bad"].append((t, sorted(axioms.get(full, {"<not reported>"}))))
         # thorough tier: independent re-check of the compiled module with leanchecker
         if built and tier == "thorough":
-            rc, out = _run(["lake", "env", "leanchecker", f"Props.{prop}"], cwd=LEAN, timeout=3600)
+            rc, out = _run(["lake", "env", "leanchecker", f"Props.{prop}"] + [f"Props.{f.stem}" for f in extra_files],
+                           cwd=LEAN, timeout=3600)
             res["leanchecker"] = dict(exit=rc, tail=out[-300:])
             if rc != 0:
                 res["log"] += "\nleanchecker failed: " + out[-1500:]
